@@ -183,7 +183,7 @@ def _func_table(model, fn):
     return entries, default
 
 
-def make_case(kind, env, spec, model, target=None, leg=None, extra=None):
+def make_case(kind, env, spec, model, target=None, leg=None, extra=None, target2=None):
     """Concrete scenario (JSON-able) from a solver model, in the vocabulary of /verif/replay."""
     def job(j):
         d = {'loc': _ev_int(model, j['loc'].t), 'dur': _ev_f(model, j['dur']), 'tws': _ev_f(model, j['tws']), 'twe': _ev_f(model, j['twe'])}
@@ -197,6 +197,7 @@ def make_case(kind, env, spec, model, target=None, leg=None, extra=None):
         'shift_end': _ev_f(model, spec.shift_end) if spec.closed else None,
         'l0': _ev_int(model, spec.start_loc.t), 'lend': _ev_int(model, spec.end_loc.t) if spec.closed else 0,
         'jobs': [job(j) for j in spec.jobs], 'target': job(target) if target is not None else None, 'leg': leg,
+        'target2': job(target2) if target2 is not None else None,
         'dur': dur, 'dist': dist, 'dur_default': dur_default, 'dist_default': dist_default,
     }
     for name in ('vehicle_costs_sym', 'driver_costs_sym'):
@@ -443,6 +444,7 @@ def ob_time_window_gate(ctx, k, closed, bits, with_stop=True):
             spec = TourSpec(env, k, closed)
             target = spec.sym_job('target')
             holder['spec'], holder['target'] = spec, target
+            holder['target2'] = spec.sym_job('target2')
             rc = spec.build()
             rc = run_update(ctx, env, eng, st, rc)
             holder['n_side_update'] = len(st.side)
@@ -477,22 +479,27 @@ def ob_time_window_gate(ctx, k, closed, bits, with_stop=True):
             accepted = zs(out.discr == 0)
             if not decide_claim(ctx, res, env, st, accepted == post_feasible, assume, what=f'{name} leg {p}: accepted <=> feasible after insertion'):
                 if res.model is not None:
-                    res.case = make_case('tw_gate', env, spec, res.model, target, p)
+                    res.case = make_case('tw_gate', env, spec, res.model, target, p, target2=holder.get('target2'))
                 break
             if with_stop:
                 # stopped => every later position infeasible
                 v = out.payload.get(1, [None])[0]
                 if v is not None and not z3.is_false(accepted == False):  # noqa: E712
                     stopped = env.field(v, 'goal::ConstraintViolation', 'stopped').t
+                    # a `stopped` verdict makes the evaluator abandon the remaining time windows/places of this leg AND all
+                    # later legs, so it must not depend on the target: for an INDEPENDENT second target (other place, other
+                    # time window) this leg and every later one must be infeasible as well
+                    other = holder.get('target2')
                     later = []
-                    for q in range(p + 1, n_legs):
-                        jobs_q = spec.jobs[:q] + [target] + spec.jobs[q:]
-                        later.append(z3.Not(spec.feasible(jobs_q)))
-                        assume = assume + spec.matrix_assumptions(jobs_q)
+                    for q in range(p, n_legs):
+                        for tgt in ((target, other) if q > p else (other,)):
+                            jobs_q = spec.jobs[:q] + [tgt] + spec.jobs[q:]
+                            later.append(z3.Not(spec.feasible(jobs_q)))
+                            assume = assume + spec.matrix_assumptions(jobs_q)
                     claim = z3.Implies(z3.And(z3.Not(accepted), stopped), z3.And(*later) if later else z3.BoolVal(True))
-                    if not decide_claim(ctx, res, env, st, claim, assume, what=f'{name} leg {p}: stopped => no later position feasible'):
+                    if not decide_claim(ctx, res, env, st, claim, assume, what=f'{name} leg {p}: stopped => this and every later leg infeasible for ANY target'):
                         if res.model is not None:
-                            res.case = make_case('tw_gate', env, spec, res.model, target, p)
+                            res.case = make_case('tw_gate', env, spec, res.model, target, p, target2=holder.get('target2'))
                         break
                     if witness(ctx, res, env, st, z3.And(z3.Not(accepted), stopped), assume):
                         saw_stop = True
@@ -1525,5 +1532,150 @@ def ob_simple_objectives(ctx):
             break
     if res.status == 'holds' and res.witnesses == 0:
         res.status, res.detail = 'inconclusive', 'vacuous'
+    res.time = time.time() - t0
+    return res
+
+
+# ---------------------------------------------------------------------------------------------------------------------
+# the leg-scanning loop of the insertion evaluator (C06 second sentence, C15 per-leaf step)
+
+def ob_leg_scan(ctx, k, closed, n_tw=1, with_best_known=False):
+    """C06: `eval_single` -> `analyze_insertion_in_route` -> `analyze_insertion_in_route_leg` (real MIR, exhaustive leg
+    selection, default cost selector) over a tour of k jobs: with the goal's verdict and cost estimate for every candidate
+    (leg x time window) as SYMBOLIC inputs, the evaluator returns Success exactly when some candidate has no violation
+    (given that a `stopped` verdict is only issued when no candidate of this or any later leg is feasible - which C06/C01
+    `tw_gate` proves for the real time-window constraint), and the returned (leg, cost, time window) is a violation-free candidate of minimal cost."""
+    from symex import DynV
+    name = f'leg_scan[k={k},{"closed" if closed else "open"},tw={n_tw}{",pruned" if with_best_known else ""}]'
+    res = Result(name)
+    res.bounds = (f'tour of {k} jobs ({"closed" if closed else "open"}), every leg, one place x {n_tw} time windows per leg; per candidate: symbolic verdict '
+                  f'(none / skip / stop) and symbolic integer cost; exhaustive leg selection, BestResultSelector cost selection'
+                  + ('; pruning by a symbolic best-known cost' if with_best_known else ''))
+    t0 = time.time()
+    n_legs = k + 1
+    fns = ctx.prog.find_free('eval_single')
+
+    class Env(drivers.Env):
+        def override(self, engine, st, callee, args, dest_ty):
+            if callee.endswith('GoalContext::evaluate') or callee.endswith('GoalContext::estimate'):
+                mc = deref_all(args[1])
+                actx = deref_all(mc.payload[1][2])
+                idx = self.field(actx, 'context::ActivityContext', 'index').concrete()
+                tgt = deref_all(self.field(actx, 'context::ActivityContext', 'target'))
+                start = self.act_field(tgt, 'place.time.start')
+                t = [i for i in range(n_tw) if zs(start.v).eq(zs(z3.Int(f'tw{i}_start')))]
+                if idx is None or len(t) != 1:
+                    raise Inconclusive('cannot identify the candidate of a goal call')
+                t = t[0]
+                self.calls.append((callee.split('::')[-1], idx, t))
+                if callee.endswith('evaluate'):
+                    viol = z3.Bool(f'viol_{idx}_{t}')
+                    v = self.struct('goal::ConstraintViolation', code=Agg('struct', [IV(1, 'i32')], 'goal::ViolationCode'), stopped=BV(z3.Bool(f'stop_{idx}_{t}')))
+                    return mk_option(viol, v, ty='Option<ConstraintViolation>')
+                c = self.sym_f(f'cost_{idx}_{t}', 0, 2 ** 20)
+                return self.struct('insertions::InsertionCost', data=VecV([c]))
+            if callee.endswith('InsertionCost::max_value'):
+                return RefV(Cell(self.struct('insertions::InsertionCost', data=VecV([FV.max_value()]))), 0)
+            if callee.endswith('UnwrapValue>::unwrap_value'):
+                cf = args[0]
+                v = cf.variant()
+                if v is None:
+                    v = 0 if engine.split_bool(st, cf.discr == 0) else 1
+                return cf.payload[v][0]
+            return super().override(engine, st, callee, args, dest_ty)
+
+        def dyn_call(self, engine, st, trait, method, args, dest_ty):
+            if trait == 'ResultSelector' and method == 'select_cost':
+                fn = self._trait_default('ResultSelector', 'select_cost')
+                return engine.exec_fn(st, fn, args)
+            return super().dyn_call(engine, st, trait, method, args, dest_ty)
+
+    env = Env(ctx.prog, ctx.layout, 16)
+    eng = symex.Engine(ctx.prog, ctx.layout, env)
+
+    def body(st):
+        env.assumptions.clear()
+        env.calls = []
+        spec = TourSpec(env, k, closed)
+        rc = spec.build()
+        tws = [env.time_window(env.sym_f(f'tw{i}_start'), env.sym_f(f'tw{i}_end')) for i in range(n_tw)]
+        for i in range(n_tw):
+            for j in range(i + 1, n_tw):
+                env.assumptions.append(z3.Int(f'tw{i}_start') != z3.Int(f'tw{j}_start'))
+        place = env.struct('jobs::Place', location=mk_option(True, IV(77), ty='Option<usize>'), duration=env.sym_f('job_duration'),
+                           times=VecV([EnumV('domain::TimeSpan', 0, {0: [tw]}) for tw in tws]))
+        single = ArcV(Cell(env.struct('jobs::Single', places=VecV([place]), dimens=StateV())))
+        job = EnumV('jobs::Job', 0, {0: [single]})
+        eval_ctx = env.struct('evaluators::EvaluationContext', goal=RefV(Cell(Opaque('goal')), 0), job=RefV(Cell(job), 0),
+                              leg_selection=RefV(Cell(EnumV('selectors::LegSelection', 1, {})), 0), result_selector=RefV(Cell(DynV('selector')), 0))
+        route_costs = env.struct('insertions::InsertionCost', data=VecV([FV.const(0)]))
+        best = mk_option(True, env.struct('insertions::InsertionCost', data=VecV([env.sym_f('best_known', 0, 2 ** 20)])), ty='Option<InsertionCost>') \
+            if with_best_known else mk_option(False, ty='Option<InsertionCost>')
+        position = EnumV('evaluators::InsertionPosition', 0, {})
+        try:
+            out = eng.exec_fn(st, fns, [RefV(Cell(eval_ctx), 0), RefV(Cell(Opaque('SolutionContext')), 0), RefV(Cell(rc), 0), RefV(single.cell, 0) if False else RefV(Cell(single), 0),
+                                        position, route_costs, best])
+        finally:
+            st.user_calls = list(env.calls)
+        return out
+
+    paths = eng.explore(body, max_paths=6000)
+    res.paths = len(paths)
+    res.functions |= eng.functions_used
+    cands = [(p, t) for p in range(n_legs) for t in range(n_tw)]
+    viol = {c: z3.Bool(f'viol_{c[0]}_{c[1]}') for c in cands}
+    stop = {c: z3.Bool(f'stop_{c[0]}_{c[1]}') for c in cands}
+    cost = {c: z3.Int(f'cost_{c[0]}_{c[1]}') for c in cands}
+    # contract of the constraints (proved for the real TransportConstraint by tw_gate): a stopped violation does not depend
+    # on the target, i.e. every candidate of this leg and of all later legs is violating as well
+    contract = []
+    for c in cands:
+        later = [viol[d] for d in cands if d[0] >= c[0] and d != c]
+        contract.append(z3.Implies(z3.And(viol[c], stop[c]), z3.And(*later) if later else z3.BoolVal(True)))
+    saw_ok = saw_fail = False
+    for st, out in paths:
+        if out is None:
+            if not no_panic(ctx, res, env, st, contract, what=name):
+                break
+            continue
+        feasible = {c: z3.Not(viol[c]) for c in cands}
+        bk = z3.Int('best_known')
+        eligible = {c: (z3.And(feasible[c], cost[c] < bk) if with_best_known else feasible[c]) for c in cands}
+        any_ok = z3.Or(*eligible.values())
+        is_success = out.variant() == 0
+        res.claims += 1
+        if out.variant() is None:
+            res.status, res.detail = 'inconclusive', 'symbolic result variant'
+            break
+        if is_success:
+            s = out.payload[0][0]
+            order = ctx.layout.fields('insertions::InsertionSuccess')
+            rcost = s.fields[order.index('cost')].fields[0].items[0]
+            acts = s.fields[order.index('activities')].items
+            act, ridx = acts[0].fields[0], acts[0].fields[1]
+            rstart = env.act_field(act, 'place.time.start')
+            sel = []
+            for c in cands:
+                here = z3.And(ridx.t == c[0], rstart.v == z3.Int(f'tw{c[1]}_start'))
+                sel.append(z3.And(here, eligible[c], rcost.v == cost[c], z3.Not(rcost.m),
+                                  *[z3.Implies(eligible[d], cost[c] <= cost[d]) for d in cands]))
+            claim = z3.And(any_ok, z3.Or(*sel))
+            saw_ok = saw_ok or witness(ctx, res, env, st, z3.BoolVal(True), contract)
+        else:
+            claim = z3.Not(any_ok)
+            saw_fail = saw_fail or witness(ctx, res, env, st, z3.BoolVal(True), contract)
+        if not decide_claim(ctx, res, env, st, claim, contract, what=f'{name}: {"success => minimal violation-free candidate" if is_success else "failure => no violation-free candidate"}'):
+            if res.model is not None:
+                m = res.model
+                res.case = None
+                res.counterexample['candidates'] = {f'{c}': {'violation': str(m.eval(viol[c], model_completion=True)), 'stopped': str(m.eval(stop[c], model_completion=True)),
+                                                            'cost': str(m.eval(cost[c], model_completion=True))} for c in cands}
+            break
+        if not no_panic(ctx, res, env, st, contract, what=name):
+            break
+    if res.status == 'holds':
+        res.witnesses = int(saw_ok) + int(saw_fail)
+        if not (saw_ok and saw_fail):
+            res.status, res.detail = 'inconclusive', f'vacuous: success={saw_ok} failure={saw_fail}'
     res.time = time.time() - t0
     return res
